@@ -33,6 +33,9 @@ def run_case(case: dict) -> dict:
         for k in [k for k in os.environ if k.startswith("VERIF_") and k not in ("VERIF_SEED", "VERIF_TIER")]:
             del os.environ[k]
         os.environ.update({k: str(v) for k, v in case.get("env", {}).items()})
+        from vlib import params
+
+        params.clear_cache()
         mod = importlib.import_module(case["module"])
         fn = getattr(mod, case["function"])
         try:
